@@ -11,5 +11,6 @@ CONSTANTS
   DEV_DeferredRemoveKeepsPolygon = FALSE
   DEV_ForkSharesLanelets = FALSE
   ForkAll = FALSE
+  DEV_DrawMovesVertices = FALSE
   DEV_DiscHalfRadius = FALSE
 INVARIANT Emit
